@@ -24,7 +24,7 @@ YOUR TASK: write a small, realistic source change (a plausible bug a maintainer 
   (b) the whole existing test suite still passes (`cargo test --workspace --offline`), and
   (c) the breakage needs something specific to manifest: an unusual input or position, a particular multi-step sequence of operations, an extreme counter value, two cooperating sites that each look fine alone, a rarely used code path (e.g. one colour only, one castling side only, en passant, promotion with capture, a move of a rook from its home square, positions with many pieces...). It must NOT be something ordinary use would expose at once (e.g. don't break all knight moves).
 {extra}
-Then write a demonstration: a tiny standalone cargo crate in {out}/demo (Cargo.toml with `owlchess = {{ path = "{wt}/chess" }}`, an empty `[workspace]` table, and copy {wt}/Cargo.lock next to it so it builds offline) whose `src/main.rs` uses only the public API of owlchess, prints what it observes, and exits with status 0 when the property holds on its scenario and with a non-zero status (e.g. via assert!/std::process::exit(1)) when it is violated. Verify yourself that the demo FAILS with your change applied and PASSES with the change reverted (`git -C {wt} stash` / `git -C {wt} stash pop`), and that the test suite passes with the change applied.
+Then write a demonstration: a tiny standalone cargo crate in {out}/demo (Cargo.toml with `owlchess = {{ path = "{wt}/chess" }}`, an empty `[workspace]` table, and copy {wt}/Cargo.lock next to it so it builds offline) whose `src/main.rs` uses only the public API of owlchess, prints what it observes, and exits with status 0 when the property holds on its scenario and with a non-zero status (e.g. via assert!/std::process::exit(1)) when it is violated. Verify yourself that the demo FAILS with your change applied and PASSES with the change reverted (revert with `git -C {wt} diff > /tmp/seed/{tag}/my.diff && git -C {wt} apply -R /tmp/seed/{tag}/my.diff`, re-apply with `git -C {wt} apply /tmp/seed/{tag}/my.diff`; do NOT use `git stash`: the stash is shared between worktrees), and that the test suite passes with the change applied.
 
 Finally, leave these files:
   {out}/patch.diff   -- `git -C {wt} diff` of your change (only the library change, applies with `git apply` to a clean checkout)
